@@ -995,8 +995,7 @@ func (t *tScreen) showCursor() {
 	if t.cursorRGB != "" {
 		if t.cursorColor == ColorReset {
 			t.TPuts(t.cursorFg)
-		} else if t.cursorColor.Valid() {
-			r, g, b := t.cursorColor.RGB()
+		} else if r, g, b := t.cursorColor.RGB(); r >= 0 {
 			t.TPuts(t.ti.TParm(t.cursorRGB, int(r), int(g), int(b)))
 		}
 	}
